@@ -41,20 +41,23 @@ def hmsOpt (h m s : Nat) : Except Panic HMS :=
 
 def wrapFuel : Nat := 100000
 
+/-- hour_to_time after the negative-hour wrap: fields, rounding, `>= 24` wrap, NaiveTime -/
+def convertHour (p : Params α) (prayer : Prayer) (hour : α) : Except Panic HMS :=
+  let min := fracMin hour
+  let sec := (min - Sc.floor min) * Gen.MIN_SEC_PER_HR_MIN
+  let hms : α × α × α :=
+    match (roundAct p.round prayer : RoundAct α) with
+    | .keep => (hour, min, sec)
+    | .drop => (hour, min, 0.0)
+    | .round cap => roundSecs hour sec cap
+  let hour2 := if Sc.leb Gen.HRS_PER_DAY hms.1 then rem24 hms.1 else hms.1
+  hmsOpt (Sc.toU32 hour2) (Sc.toU32 hms.2.1) (Sc.toU32 hms.2.2)
+
 /-- hour_to_time -/
 def hourToTime (p : Params α) (prayer : Prayer) (hour : α) : Except Panic HMS :=
   match wrapNeg wrapFuel (hour + p.minutes prayer / Gen.MIN_SEC_PER_HR_MIN) with
   | .error e => .error e
-  | .ok hour =>
-    let min := fracMin hour
-    let sec := (min - Sc.floor min) * Gen.MIN_SEC_PER_HR_MIN
-    let hms : α × α × α :=
-      match (roundAct p.round prayer : RoundAct α) with
-      | .keep => (hour, min, sec)
-      | .drop => (hour, min, 0.0)
-      | .round cap => roundSecs hour sec cap
-    let hour2 := if Sc.leb Gen.HRS_PER_DAY hms.1 then rem24 hms.1 else hms.1
-    hmsOpt (Sc.toU32 hour2) (Sc.toU32 hms.2.1) (Sc.toU32 hms.2.2)
+  | .ok hour => convertHour p prayer hour
 
 def toPrayerTime (p : Params α) (prayer : Prayer) (ph : PH α) : Except Panic PT :=
   match hourToTime p prayer ph.value with
